@@ -56,6 +56,7 @@ var flowFiles = map[string]bool{"template.go": true, "exporter.go": true, "impor
 
 type flowLoopCtx struct {
 	post ast.Stmt
+	objs []types.Object // the outer variables the loop assigns
 }
 
 type flowX struct {
@@ -67,6 +68,7 @@ type flowX struct {
 	markers   map[ast.Stmt]ast.Stmt   // marker -> the statement that follows it (its assignments are done)
 	pass      map[ast.Stmt]bool       // the statement was reached through its marker
 	nhoist    int
+	carried   bool                         // NEXT and BREAK show the values of the variables the loop assigns (jlfacts.go)
 	roleOf    map[string]map[string]string // struct type -> field name -> role (by the field's type)
 	done      map[ast.Stmt]bool
 	nextMark  *ast.BranchStmt
@@ -158,8 +160,14 @@ func flowText(t *vtree) string {
 		}
 		return fmt.Sprintf("loop %s{%s} then {%s}", h, flowText(t.then), flowText(t.next))
 	case "next":
+		if len(t.rets) > 0 {
+			return "NEXT[" + strings.Join(t.rets, ",") + "]"
+		}
 		return "NEXT"
 	case "break":
+		if len(t.rets) > 0 {
+			return "BREAK[" + strings.Join(t.rets, ",") + "]"
+		}
 		return "BREAK"
 	}
 	return t.String()
@@ -279,6 +287,9 @@ func (fx *flowX) assignedOuter(nodes []ast.Node, lo, hi token.Pos) (objs []types
 		if obj == nil {
 			obj = fx.p.info.Uses[id]
 		}
+		if obj == nil && id.Pos() >= lo && id.Pos() < hi {
+			return // the symbol of a type switch inside the loop: one implicit object per clause
+		}
 		v, isVar := obj.(*types.Var)
 		if !isVar {
 			bad = true
@@ -358,7 +369,7 @@ func (fx *flowX) loop(hdr string, bind func(*vstate) bool, body []ast.Stmt, post
 		return fx.unk("%s", fx.p.text(whole))
 	}
 	fr2 := &vframe{nres: fr.nres, named: fr.named, ret: fr.ret, stack: fr.stack}
-	fx.loops[fr2] = &flowLoopCtx{post: post}
+	fx.loops[fr2] = &flowLoopCtx{post: post, objs: objs}
 	stmts := vconcat(body, nil)
 	if post != nil {
 		stmts = append(stmts, post)
@@ -696,17 +707,26 @@ func (fx *flowX) stmtHook(s ast.Stmt, rest []ast.Stmt, st *vstate, fr *vframe) *
 		if ctx == nil || n.Label != nil {
 			return fx.unk("%s", fx.p.text(s))
 		}
+		carried := func(kind string) *vtree {
+			t := &vtree{kind: kind}
+			if fx.carried {
+				for _, o := range ctx.objs {
+					t.rets = append(t.rets, st.norm(st.vars[o]))
+				}
+			}
+			return t
+		}
 		if n == fx.nextMark {
-			return &vtree{kind: "next"}
+			return carried("next")
 		}
 		switch n.Tok {
 		case token.BREAK:
-			return &vtree{kind: "break"}
+			return carried("break")
 		case token.CONTINUE:
 			if ctx.post != nil {
 				return x.exec([]ast.Stmt{ctx.post, fx.nextMark}, st, fr)
 			}
-			return &vtree{kind: "next"}
+			return carried("next")
 		}
 		return fx.unk("%s", fx.p.text(s))
 	case *ast.IncDecStmt:
